@@ -13,7 +13,8 @@ import inspect
 
 from gen_consts import Inexpressible
 
-CONSTS = ["MSG_REQUEST", "MSG_REPLY", "MSG_EXCEPTION", "LABEL_VALUE", "HANDLE_PING", "HANDLE_CLOSE"]
+CONSTS = ["MSG_REQUEST", "MSG_REPLY", "MSG_EXCEPTION", "LABEL_VALUE", "LABEL_TUPLE", "LABEL_REMOTE_REF", "HANDLE_PING",
+          "HANDLE_CLOSE"]
 SERVERS = ["ThreadedServer", "ThreadPoolServer", "ForkingServer", "OneShotServer"]
 
 
